@@ -38,7 +38,8 @@ theorem mcGo_swapInside [Zero R] [Add R] (v : List (Fin d) → R) {ps qs : List 
 theorem getElem?_set_set_false (b : List Bool) (i j m : Nat) :
     ((b.set i true).set j true)[m]? = some false ↔ (m ≠ i ∧ m ≠ j ∧ b[m]? = some false) := by
   simp only [List.getElem?_set]
-  by_cases h1 : j = m <;> by_cases h2 : i = m <;> simp [h1, h2] <;> grind
+  by_cases h1 : j = m <;> by_cases h2 : i = m <;> simp [h1, h2]
+  grind
 
 
 /-- **the order of the pairs is irrelevant** (for pairwise distinct positions): well-formedness is
